@@ -277,7 +277,7 @@ func getFixture() (*fixture, error) {
 		}
 		id := int64(os.Getpid())
 		f := &fixture{p: p, ns: proxyfix.UniqueName("c38ns", id), fuzzUser: proxyfix.UniqueName("c38fz", id), okUser: proxyfix.UniqueName("c38ok", id)}
-		specs := []proxyfix.SliceSpec{{Name: "slice-0", Capacity: 4, MaxCapacity: 8}}
+		specs := []proxyfix.SliceSpec{{Name: "slice-0", Capacity: 2, MaxCapacity: 2}} // small pool: a leaked connection starves the others soon
 		f.cl, err = proxyfix.NewCluster(specs)
 		if err != nil {
 			fxErr = err
@@ -479,7 +479,8 @@ func (f *fixture) runFuzzConn(c c38Case, budget time.Duration) (res connOutcome)
 			wire = append(wire, frame(h.Switch, 3, frameMut{})...)
 		}
 	} else {
-		cli, err := rawclient.Dial(f.p.Addr, rawclient.Options{User: f.fuzzUser, Password: password, DB: "db", Timeout: lim.dial, Caps: rawclient.ClientMultiStatements})
+		db := []string{"db", "c38_unknown_db", ""}[c.ConnDB%3]
+		cli, err := rawclient.Dial(f.p.Addr, rawclient.Options{User: f.fuzzUser, Password: password, DB: db, Timeout: lim.dial, Caps: rawclient.ClientMultiStatements})
 		if err != nil {
 			res.fixture = "well-formed handshake refused: " + err.Error()
 			return
@@ -640,6 +641,16 @@ func checkC38Sub(sub string, c c38Case) (o pbt.Outcome) {
 			}
 		}
 	}
+	if c.Handshake == nil && c.ConnDB != 0 {
+		mutated = true
+		o.Labels = append(o.Labels, []string{"", "conn_db_unknown", "conn_db_none"}[c.ConnDB%3])
+		for i := range c.Cmds {
+			if c.Cmds[i].Cmd == comFieldList && c.Cmds[i].Trunc < 0 && c.Cmds[i].Frame.Mode == "" {
+				o.Labels = append(o.Labels, "field_list_without_usable_db")
+				break
+			}
+		}
+	}
 	o.NonTrivial = mutated
 
 	// healthy session, opened and used before the input. On a loaded machine the proxy may fail to get a backend
@@ -775,6 +786,29 @@ func checkC38Sub(sub string, c c38Case) (o pbt.Outcome) {
 		o.Labels = append(o.Labels, "outcome_closed_without_error_packet")
 	}
 
+	// quiescence first (so that a leak is attributed to this input and not to a starving later one): pool slots
+	// and session goroutines back to the baseline
+	deadline := time.Now().Add(lim.quiesce)
+	for {
+		inUse := f.poolInUse()
+		g, sig := proxyGoroutines()
+		if inUse <= inUse0 && g <= g0 {
+			break
+		}
+		if time.Now().After(deadline) {
+			if soften(fmt.Sprintf("not quiescent after %v: goroutines %d->%d, pool in use %d->%d", lim.quiesce, g0, g, inUse0, inUse)) {
+				return
+			}
+			if g > g0 {
+				o.Violation = fmt.Sprintf("goroutines of client sessions (Server.onConn and workers started by session code) did not return to the baseline: %d before the input, %d more than %v after it (%s)", g0, g, lim.quiesce, diffSigs(sig0, sig))
+			} else {
+				o.Violation = fmt.Sprintf("backend connections taken from the pool did not return: %d in use before the input, %d more than %v after it", inUse0, inUse, lim.quiesce)
+			}
+			return
+		}
+		time.Sleep(2 * time.Millisecond)
+	}
+
 	// the healthy session still answers correctly
 	if late() {
 		return
@@ -823,27 +857,6 @@ func checkC38Sub(sub string, c c38Case) (o pbt.Outcome) {
 		return
 	}
 
-	// quiescence: pool slots and goroutines back to the baseline
-	deadline := time.Now().Add(lim.quiesce)
-	for {
-		inUse := f.poolInUse()
-		g, sig := proxyGoroutines()
-		if inUse <= inUse0 && g <= g0 {
-			break
-		}
-		if time.Now().After(deadline) {
-			if soften(fmt.Sprintf("not quiescent after %v: goroutines %d->%d, pool in use %d->%d", lim.quiesce, g0, g, inUse0, inUse)) {
-				return
-			}
-			if g > g0 {
-				o.Violation = fmt.Sprintf("goroutines of client sessions (Server.onConn and workers started by session code) did not return to the baseline: %d before the input, %d more than %v after it (%s)", g0, g, lim.quiesce, diffSigs(sig0, sig))
-			} else {
-				o.Violation = fmt.Sprintf("backend connections taken from the pool did not return: %d in use before the input, %d more than %v after it", inUse0, inUse, lim.quiesce)
-			}
-			return
-		}
-		time.Sleep(2 * time.Millisecond)
-	}
 	return
 }
 
